@@ -141,7 +141,7 @@ func (s *Scenario) RawMsgDoc(doc string) {
 }
 
 var mutsRedirect = []string{"", "", "bitflip-sig", "bitflip-signed-msg", "strip-sig", "sigalg-only", "swap-relay", "alg-subst", "move-to-post", "param-split"}
-var mutsPost = []string{"", "", "bitflip-msg", "bitflip-sigvalue", "foreign-keyinfo", "wrap-cert", "move-to-redirect", "param-split"}
+var mutsPost = []string{"", "", "bitflip-msg", "bitflip-sigvalue", "foreign-keyinfo", "wrap-cert", "move-to-redirect", "move-to-redirect-tampered", "post-detached-sig", "post-detached-sig-bad", "param-split"}
 
 // StreamSigned: signing requirement flags x signing x mutations of validly signed messages
 func StreamSigned(r *rand.Rand, n int) []*Scenario {
@@ -162,6 +162,8 @@ func StreamSigned(r *rand.Rand, n int) []*Scenario {
 			} else {
 				s.Mut = pick(r, mutsPost)
 			}
+		} else if s.Transport == "post" && r.Intn(6) == 0 {
+			s.Mut = pick(r, []string{"post-detached-sig", "post-detached-sig-bad"})
 		}
 		out = append(out, s)
 	}
